@@ -573,13 +573,22 @@ pub const INT_FIELDS: [&str; 2] = ["age", "qty"];
 pub const STR_FIELD: &str = "tag";
 pub const BOOL_FIELD: &str = "vip";
 pub const INT_DOMAIN: [i64; 8] = [-3, 0, 5, 10, 18, 25, 100, 7];
+/// integers that f64 cannot tell apart (2^53, 2^53 + 1) and the i64 edge: one pick in 14
+pub const BIG_INTS: [i64; 4] = [9_007_199_254_740_992, 9_007_199_254_740_993, i64::MAX - 1, -9_007_199_254_740_993];
+pub fn pick_int(rng: &mut Rng) -> i64 {
+    if rng.chance(1, 14) {
+        *rng.pick(&BIG_INTS)
+    } else {
+        *rng.pick(&INT_DOMAIN)
+    }
+}
 pub const STR_DOMAIN: [&str; 8] = ["", "a", "ab", "abc", "gold", "old", "go", "silver"];
 
 pub fn gen_fields(rng: &mut Rng, drop_field_one_in: u32) -> Fields {
     let mut f = Fields::new();
     for k in INT_FIELDS {
         // 1 in 16 numeric fields holds a NaN
-        f.insert(k.to_string(), if rng.chance(1, 16) { Val::Nan } else { Val::I(*rng.pick(&INT_DOMAIN)) });
+        f.insert(k.to_string(), if rng.chance(1, 16) { Val::Nan } else { Val::I(pick_int(rng)) });
     }
     f.insert(STR_FIELD.to_string(), Val::S(rng.pick(&STR_DOMAIN).to_string()));
     f.insert(BOOL_FIELD.to_string(), Val::B(rng.bool()));
@@ -595,7 +604,7 @@ pub fn gen_leaf(rng: &mut Rng) -> Cond {
     match rng.below(4) {
         0 | 1 => {
             let field = rng.pick(&INT_FIELDS).to_string();
-            let base = *rng.pick(&INT_DOMAIN);
+            let base = pick_int(rng);
             let lit = base + rng.range(-1, 1);
             Cond::Leaf { field, op: *rng.pick(&INT_OPS), lit: Val::I(lit) }
         }
@@ -632,7 +641,7 @@ pub fn gen_rule(rng: &mut Rng, i: usize, types: &[&str], mode: u32) -> RuleSpec 
             // mostly the rule's own type (the matched fact), sometimes another one
             let aty = if rng.chance(5, 6) { ty.clone() } else { rng.pick(types).to_string() };
             let a = match rng.below(6) {
-                0 | 1 => Act::Set { ty: aty, field: rng.pick(&INT_FIELDS).to_string(), val: Val::I(*rng.pick(&INT_DOMAIN)) },
+                0 | 1 => Act::Set { ty: aty, field: rng.pick(&INT_FIELDS).to_string(), val: Val::I(pick_int(rng)) },
                 2 => Act::Set { ty: aty, field: STR_FIELD.into(), val: Val::S(rng.pick(&STR_DOMAIN).to_string()) },
                 3 => Act::Set { ty: aty, field: BOOL_FIELD.into(), val: Val::B(rng.bool()) },
                 4 => Act::Retract { ty: aty, dollar: rng.bool() },
